@@ -17,6 +17,9 @@ Search (on the real code only; the oracle is the property text):
   stream A  valid calls of lib/gen.py, each followed by single-edit corruptions that are ill-formed by construction: clause (a)+(b)+(c)
   stream B  every concatenation of <= L notation tokens through ten entry points with tensors of plausible ranks: clause (a)+(c)
   stream C  random strings / grammar-generated descriptions: clause (a)+(c)
+  stream R  (props/c03_rules.py) for every rejection theorem of Props/C03Reject.lean / Props/C03Elab.lean: descriptions that have the
+            theorem's defect by construction; Lean hypothesis evaluated on the input, model outcome = theorem's conclusion, real
+            parser / `_parse_op` raise the same class at the same site, public entry point raises SyntaxError / SemanticError
 "Before any backend computation" is observed from outside einx: tensor arguments are instances of an ndarray subclass that logs
 every numpy function/ufunc applied to them; the log must be empty whenever the call raises anything but CallOperationError.
 Findings are keyed by (clause, exception type, innermost einx frame file:function); each key is reported once with a shrunk example.
@@ -34,9 +37,11 @@ import warnings
 import numpy as np
 
 from lib import core, gen
-from props import c12
+from props import c12, c03_rules
 
-EXTRACTORS = ["Notation", "Errors"]
+EXTRACTORS = ["Notation", "Errors", "Elab"]
+# further property files of C03: rejection theorems on the parser model and on the `_parse_op` model
+EXTRA_PROPS = ["C03Reject", "C03Elab"]
 
 OPS_B = ["id", "sum", "add", "dot", "get_at", "argmax", "sort", "solve_axes", "solve_shapes", "matches"]
 SOLVE_FNS = ("solve_axes", "solve_shapes", "matches", "solve", "check")
@@ -953,6 +958,10 @@ def run(ctx):
     if ctx.driver_ok:
         check_indicator(ctx, rng, 250 if not big else 4000, 3 if not big else 4)
     timing["indicator"] = round(time.time() - t0, 1)
+    # ---- stream R: defect-by-construction inputs for the rejection theorems (Props/C03Reject.lean, Props/C03Elab.lean)
+    tr = time.time()
+    c03_rules.run(ctx, sys.modules[__name__], (60 if intensive else 14) if not big else 300)
+    timing["rules"] = round(time.time() - tr, 1)
     t1 = time.time()
 
     # ---- work items
@@ -1037,6 +1046,8 @@ def replay(ctx, path):
         still = finding_key(now, sure) is not None
         print("replay: the real code", "still violates the property" if still else "no longer fails", "on this input")
         return 1 if still else 0
+    if r.get("kind") == "rule-call":
+        return c03_rules.replay(sys.modules[__name__], r)
     if r.get("kind") == "indicator-assert":
         cases = indicator_cases([r["request"]["text"]], ctx.rng)
         still = any(not real["assert"] for _, real in cases)
